@@ -5,7 +5,7 @@ PROP = "C05"
 LEVEL = "exploration"
 ENGINE = "BL"
 N = {"quick": 1600, "thorough": 120000}
-TIME = {"quick": 40, "thorough": 420}
+TIME = {"quick": 300, "thorough": 420}
 RULE = ("Same generated broker histories as C01 (spot-like and margined contracts incl. user-defined, spreads, fees, rates). "
         "Post-conditions are evaluated INSIDE hooks on Broker.net_liquidation_value, marking_to_market (all / one), "
         "holdings_weights, context and transact (traded contract only): margin == requirement x multiplier x |position| x "
